@@ -137,6 +137,10 @@ fn main() {
             vmon::live_router::run(&prop, seed, &w)
         }
         "c05-live" => vmon::live_router::run_header_policy(seed, if quick { 8 } else { 120 }),
+        "c10-invalid" => {
+            let (threads, per) = if quick { (8, 500) } else { (16, 20_000) };
+            vmon::c10::run(seed, threads, per)
+        }
         "c05-exhaustive" => {
             let ns = n as u64;
             sharded(n, move |s| vmon::c05::run_exhaustive(s, ns))
